@@ -8,6 +8,7 @@ mod c12;
 mod c13;
 mod c17;
 mod eng;
+mod pair;
 mod stack;
 
 use serde_json::Value;
@@ -52,6 +53,7 @@ fn main() {
   let obs: Vec<Value> = match args[1].as_str() {
     "c03" => cases.iter().map(c03::run_case).collect(),
     "eng" => cases.iter().map(eng::run_case).collect(),
+    "pair" => cases.iter().map(pair::run_case).collect(),
     "c12" => cases.iter().map(c12::run_case).collect(),
     "c11" => c11::run_all(cases),
     "c13" => cases.iter().map(c13::run_case).collect(),
